@@ -1,6 +1,7 @@
 """C08 — module mode: the trait's methods are exactly the module's non-private functions."""
 from ..common import Report
-from ..corpus import load, load_repo_tests
+from ..corpus import load, load_repo_tests, load_repo_examples
+from ..docgen import load_repo_docs
 from ..crossgen import load_cross
 from ..wrules import FnModView, trait_methods, last_seg, check_fnmod_delegation
 from .c13 import resolve_vis
@@ -14,6 +15,8 @@ def run(tier):
     loaded += [(cfg, load_cross(rep, cfg, tier)) for cfg in configs]
     if tier == "thorough":
         loaded.append(("unimock_test", load_repo_tests(rep)))
+        loaded += [("unimock_test", ld) for ld in load_repo_examples(rep)]
+        loaded.append(("unimock_test", load_repo_docs(rep)))
     for cfg, ld in loaded:
         crate = ld.crate
         for exp in crate.expansions:
